@@ -377,7 +377,7 @@ namespace c01
                 hsh = vf::mix(hsh, 50 + (uint64_t)id);
             for (int x = 0; x < N; x++)
                 hsh = vf::mix(hsh, st[x]);
-            vf::state(hsh);
+            vf::state(N <= 4 ? hsh : shape_hash(0x512, N, L, model, (int)LMAX + (int)XL, (const uint8_t *)st));
         }
 #undef C01_COLLECT
         void teardown(uint64_t)
